@@ -410,6 +410,13 @@ class OpsMixin:
             for j, (name, rec) in enumerate(vs["cols"]):
                 tok = X.expr_tok(rec, cx, f"{new_id}.{j}")
                 window = window or X.expr_ftype(rec, self.expr_recs) != "ew"
+                if tok.kind == "const" and tok.lineage is None and m.rowid and not (m.n_join or m.n_union or m.n_summarize):
+                    # a literal column of a single-source table belongs to that table's rows: when the
+                    # table ends up on the padded side of a left / full join it is null together with
+                    # the table's other columns (also when it is hidden and reached through a reference)
+                    lins = {self.model.toks[t].lineage for t in m.rowid}
+                    if len(lins) == 1 and None not in lins:
+                        tok = tok.derive(tok.id, lineage=next(iter(lins)))
                 items.append((name, tok))
             res = M.mutate(m, new_id, items, window=window)
             if m.ung is not None:
